@@ -36,6 +36,9 @@ struct Judge<'a> {
     prop: Prop,
     forms: &'a [OpenForm],
     sentinel: Vec<u8>,
+    /// distinct error texts seen per (form, wire length): the error value is a caller-visible output as well,
+    /// and must not carry anything computed from the rejected ciphertext (e.g. the expected authenticator)
+    errs: std::cell::RefCell<std::collections::HashMap<(String, usize), std::collections::BTreeSet<String>>>,
 }
 
 impl<'a> Judge<'a> {
@@ -63,6 +66,13 @@ impl<'a> Judge<'a> {
                 Prop::C17 => {
                     if r.ok {
                         continue; // C02's business
+                    }
+                    {
+                        let mut e = self.errs.borrow_mut();
+                        let set = e.entry((o.name.to_string(), w.ct.len())).or_default();
+                        if set.len() < 64 {
+                            set.insert(r.err.clone());
+                        }
                     }
                     if !r.caller_buffer {
                         // object API: returned only an error (the type cannot carry anything else)
@@ -170,6 +180,7 @@ struct SOut {
     caller_buffer: bool,
     got: Vec<u8>,
     got_tag: u8,
+    err: String,
     /// after a rejected delivery: was the authentic ciphertext still accepted by the same stream?
     retry_ok: Option<bool>,
 }
@@ -194,13 +205,14 @@ fn st_classic(w: &SWire, s: &[u8]) -> Option<SOut> {
     let mut tag = TAG_SENTINEL;
     let r = ss::crypto_secretstream_xchacha20poly1305_pull(&mut st, &mut m, &mut tag, &w.ct, w.ad.as_deref());
     let ok = r.is_ok();
+    let err = r.as_ref().err().map(|e| e.to_string()).unwrap_or_default();
     let mut retry_ok = None;
     if !ok && w.genuine_key_header {
         let mut m2 = vec![0u8; w.genuine.len() - 17];
         let mut t2 = 0u8;
         retry_ok = Some(ss::crypto_secretstream_xchacha20poly1305_pull(&mut st, &mut m2, &mut t2, &w.genuine, w.genuine_ad.as_deref()).is_ok());
     }
-    Some(SOut { ok, got: m.clone(), got_tag: tag, msg_after: m, msg_before: pre, tag_after: tag, caller_buffer: true, retry_ok })
+    Some(SOut { ok, got: m.clone(), got_tag: tag, err, msg_after: m, msg_before: pre, tag_after: tag, caller_buffer: true, retry_ok })
 }
 
 fn st_object(w: &SWire, _s: &[u8]) -> Option<SOut> {
@@ -214,10 +226,11 @@ fn st_object(w: &SWire, _s: &[u8]) -> Option<SOut> {
     let adv = w.ad.clone();
     let r = st.pull_to_vec(&w.ct, adv.as_ref());
     match r {
-        Ok((m, t)) => Some(SOut { ok: true, got: m, got_tag: t.bits(), msg_after: vec![], msg_before: vec![], tag_after: 0, caller_buffer: false, retry_ok: None }),
-        Err(_) => {
+        Ok((m, t)) => Some(SOut { ok: true, got: m, got_tag: t.bits(), err: String::new(), msg_after: vec![], msg_before: vec![], tag_after: 0, caller_buffer: false, retry_ok: None }),
+        Err(e) => {
+            let err = e.to_string();
             let retry_ok = if w.genuine_key_header { Some(st.pull_to_vec(&w.genuine, w.genuine_ad.as_ref()).is_ok()) } else { None };
-            Some(SOut { ok: false, got: vec![], got_tag: 0, msg_after: vec![], msg_before: vec![], tag_after: 0, caller_buffer: false, retry_ok })
+            Some(SOut { ok: false, got: vec![], got_tag: 0, err, msg_after: vec![], msg_before: vec![], tag_after: 0, caller_buffer: false, retry_ok })
         }
     }
 }
@@ -235,7 +248,9 @@ fn na_stream_accepts(w: &SWire) -> bool {
 type SFn = fn(&SWire, &[u8]) -> Option<SOut>;
 const SFORMS: [(&str, SFn); 2] = [("crypto_secretstream_xchacha20poly1305_pull", st_classic), ("DryocStream::pull_to_vec", st_object)];
 
-fn stream_tampered(cx: &mut Ctx, prop: Prop, sentinel: &[u8], w: &SWire, component: &str, kind: &str, detail: &str, msglen: usize) {
+type ErrSets = std::collections::HashMap<(String, usize), std::collections::BTreeSet<String>>;
+
+fn stream_tampered(cx: &mut Ctx, prop: Prop, sentinel: &[u8], w: &SWire, component: &str, kind: &str, detail: &str, msglen: usize, errs: &mut ErrSets) {
     if na_stream_accepts(w) {
         cx.violation("HARNESS|C02|libsodium_accepts_tampered_stream_input", json!({"component":component,"kind":kind,"detail":detail}));
         return;
@@ -261,6 +276,12 @@ fn stream_tampered(cx: &mut Ctx, prop: Prop, sentinel: &[u8], w: &SWire, compone
                 }
             }
             Prop::C17 => {
+                if !r.ok {
+                    let set = errs.entry((name.to_string(), w.ct.len())).or_default();
+                    if set.len() < 64 {
+                        set.insert(r.err.clone());
+                    }
+                }
                 if r.ok || !r.caller_buffer {
                     continue;
                 }
@@ -282,6 +303,7 @@ fn stream_tampered(cx: &mut Ctx, prop: Prop, sentinel: &[u8], w: &SWire, compone
 }
 
 fn enumerate_stream(cx: &mut Ctx, prop: Prop, sentinel: &[u8], w0: &SWire, msg: &[u8], tag: u8) {
+    let mut errs: ErrSets = Default::default();
     let len = msg.len();
     // control
     for (name, f) in SFORMS {
@@ -300,53 +322,63 @@ fn enumerate_stream(cx: &mut Ctx, prop: Prop, sentinel: &[u8], w0: &SWire, msg: 
         flip(&mut w.ct, bit);
         let off = bit / 8;
         let comp = if off == 0 { "encrypted_tag_byte" } else if off < 1 + len { "body" } else { "tag" };
-        stream_tampered(cx, prop, sentinel, &w, comp, "bit_flip", &format!("bit {}", bit), len);
+        stream_tampered(cx, prop, sentinel, &w, comp, "bit_flip", &format!("bit {}", bit), len, &mut errs);
     }
     for bit in 0..192 {
         let mut w = w0.clone();
         w.genuine_key_header = false;
         flip(&mut w.header, bit);
-        stream_tampered(cx, prop, sentinel, &w, "header", "bit_flip", &format!("bit {}", bit), len);
+        stream_tampered(cx, prop, sentinel, &w, "header", "bit_flip", &format!("bit {}", bit), len, &mut errs);
     }
     for bit in 0..256 {
         let mut w = w0.clone();
         w.genuine_key_header = false;
         flip(&mut w.key, bit);
-        stream_tampered(cx, prop, sentinel, &w, "key", "bit_flip", &format!("bit {}", bit), len);
+        stream_tampered(cx, prop, sentinel, &w, "key", "bit_flip", &format!("bit {}", bit), len, &mut errs);
     }
     if let Some(ad) = &w0.ad {
         for bit in 0..ad.len() * 8 {
             let mut w = w0.clone();
             flip(w.ad.as_mut().unwrap(), bit);
-            stream_tampered(cx, prop, sentinel, &w, "associated_data", "bit_flip", &format!("bit {}", bit), len);
+            stream_tampered(cx, prop, sentinel, &w, "associated_data", "bit_flip", &format!("bit {}", bit), len, &mut errs);
         }
         // AD dropped, truncated, extended
         let mut w = w0.clone();
         w.ad = None;
         if !ad.is_empty() {
-            stream_tampered(cx, prop, sentinel, &w, "associated_data", "dropped", "None", len);
+            stream_tampered(cx, prop, sentinel, &w, "associated_data", "dropped", "None", len, &mut errs);
             let mut w = w0.clone();
             w.ad.as_mut().unwrap().pop();
-            stream_tampered(cx, prop, sentinel, &w, "associated_data", "truncate", "1", len);
+            stream_tampered(cx, prop, sentinel, &w, "associated_data", "truncate", "1", len, &mut errs);
         }
         let mut w = w0.clone();
         w.ad.as_mut().unwrap().push(0);
-        stream_tampered(cx, prop, sentinel, &w, "associated_data", "extend", "1 x 0x00", len);
+        stream_tampered(cx, prop, sentinel, &w, "associated_data", "extend", "1 x 0x00", len, &mut errs);
     } else {
         let mut w = w0.clone();
         w.ad = Some(vec![0u8]);
-        stream_tampered(cx, prop, sentinel, &w, "associated_data", "added", "1 x 0x00", len);
+        stream_tampered(cx, prop, sentinel, &w, "associated_data", "added", "1 x 0x00", len, &mut errs);
     }
     for cut in 1..=w0.ct.len() {
         let mut w = w0.clone();
         w.ct.truncate(w0.ct.len() - cut);
-        stream_tampered(cx, prop, sentinel, &w, "ciphertext", "truncate", &format!("cut {}", cut), len);
+        stream_tampered(cx, prop, sentinel, &w, "ciphertext", "truncate", &format!("cut {}", cut), len, &mut errs);
     }
     for n in [1usize, 15, 16, 17, 64] {
         for fill in [0u8, 0xff] {
             let mut w = w0.clone();
             w.ct.extend(std::iter::repeat(fill).take(n));
-            stream_tampered(cx, prop, sentinel, &w, "ciphertext", "extend", &format!("{} x {:#04x}", n, fill), len);
+            stream_tampered(cx, prop, sentinel, &w, "ciphertext", "extend", &format!("{} x {:#04x}", n, fill), len, &mut errs);
+        }
+    }
+    if prop == Prop::C17 {
+        for ((form, wlen), set) in errs.iter() {
+            cx.eval();
+            if set.len() > 3 {
+                let ex: Vec<&String> = set.iter().take(3).collect();
+                cx.violation(&format!("C17|{}|error_text_varies_with_rejected_input", form), json!({"wire_len":wlen,"distinct_error_texts":set.len(),"examples":ex}));
+            }
+            cx.cover("error_text_checked", form);
         }
     }
 }
@@ -378,7 +410,7 @@ fn run(cx: &mut Ctx, prop: Prop) {
             }
             let mut rng = cx.rng.fork(idx);
             let sentinel = rng.nonzero_bytes(13);
-            let judge = Judge { prop, forms: &forms, sentinel };
+            let judge = Judge { prop, forms: &forms, sentinel, errs: Default::default() };
             let msg = rng.nonzero_bytes(len);
             let nonce: [u8; 24] = rng.arr();
             let key: [u8; 32] = rng.arr();
@@ -402,6 +434,18 @@ fn run(cx: &mut Ctx, prop: Prop) {
                 cx.sample(json!({"family":"Secretbox","msglen":len,"faults":"every bit of tag/body/nonce/key, every truncation, 10 extensions","ct":hx(&w0.ct)}));
             }
             enumerate_ae(cx, &judge, fam, &w0, &msg, cheap_only);
+            if prop == Prop::C17 {
+                // for one form and one wire length there are at most a length error and an authentication error;
+                // more distinct texts mean the text depends on the rejected bytes (or on the key)
+                for ((form, wlen), set) in judge.errs.borrow().iter() {
+                    cx.eval();
+                    if set.len() > 3 {
+                        let ex: Vec<&String> = set.iter().take(3).collect();
+                        cx.violation(&format!("C17|{}|error_text_varies_with_rejected_input", form), json!({"wire_len":wlen,"distinct_error_texts":set.len(),"examples":ex}));
+                    }
+                    cx.cover("error_text_checked", form);
+                }
+            }
         }
         if nightly_only {
             continue; // the stream API has no heap/locked-only forms
